@@ -228,10 +228,21 @@ def finish(prop, tier, seed, k1, tres, t0, extra_errors=(), partial=False):
         if not confirmed and any(_ind.search(a['name']) for a in obs_):
             for a in obs_:
                 demoted.add(a['name'])
+    rule6 = set()
+    for name, a in agg.items():
+        if a['bounded'] or 'refuted' not in a['verdicts'] or match_known(known, prop, a) is not None:
+            continue
+        ref = [i for i in a['instances'] if i['verdict'] == 'refuted']
+        if ref and all(i.get('rule6') and not (i.get('native') or {}).get('confirmed') for i in ref):
+            rule6.add(name)
     for name, a in sorted(agg.items()):
         solver_time += a['time']
         vs = a['verdicts']
-        if name in demoted:
+        if name in rule6 and name not in demoted:
+            a['verdict'] = 'undecided'
+            a['reason'] = ('the counter-model interprets an uninterpreted bit operator (rule 6 of the bit-operator encoding) and does '
+                           'not replay on the real code: undecided, not violated')
+        elif name in demoted:
             a['verdict'] = 'undecided'
             a['reason'] = ('loop annotations of %s are no longer inductive for the current source and no counter-model replays on the '
                            'real code: undecided, not violated' % a['source'])
